@@ -66,6 +66,91 @@ pub(crate) mod verif_u2 {
         ep
     }
 
+    static BAD_AT: AtomicUsize = AtomicUsize::new(9);
+    /// decode stand-in for a two-player endpoint: k frames of two bytes each, except frame BAD_AT which has ONE byte
+    fn stub_decode_tape_bad_size(
+        _reference: &[u8],
+        _data: &[u8],
+    ) -> Result<Vec<Vec<u8>>, Box<dyn std::error::Error + Send + Sync>> {
+        let n = DEC_N.load(Ordering::Relaxed);
+        let bad = BAD_AT.load(Ordering::Relaxed);
+        let mut out = Vec::with_capacity(3);
+        let mut i = 0;
+        while i < n {
+            let v = DEC_V[i].load(Ordering::Relaxed);
+            if i == bad {
+                out.push(vec![v]);
+            } else {
+                out.push(vec![v, v ^ 0x55]);
+            }
+            i += 1;
+        }
+        Ok(out)
+    }
+
+    macro_rules! wrong_size_frame {
+        ($name:ident, $k:expr, $bad:expr) => {
+            /// C08 "decoded frames of the wrong size": a header-valid packet of k decoded frames for a two-player
+            /// endpoint, of which frame number `bad` has a byte count that is not divisible by the player count: the
+            /// frames before it are delivered in order (they were well formed), the bad frame and EVERYTHING AFTER IT is
+            /// dropped - no gap is ever opened in the stream, nothing of a later frame is remembered, the newest
+            /// received frame stops right before the bad one - and the truncated packet is not acknowledged, so the
+            /// honest retransmission is accepted afterwards. (instance: k, bad; values symbolic)
+            #[kani::proof]
+            #[kani::unwind(8)]
+            #[kani::stub(crate::network::protocol::millis_since_epoch, stub_millis)]
+            #[kani::stub(crate::network::compression::decode, stub_decode_tape_bad_size)]
+            #[kani::stub(alloc::fmt::format, stub_format)]
+            #[kani::stub(crate::network::protocol::UdpProtocol::send_input_ack, stub_send_input_ack)]
+            fn $name() {
+                let l: Frame = 5;
+                let k: usize = $k;
+                let bad: usize = $bad;
+                let mut ep = mk_ep::<CfgRL>(vec![1, 2], 3, 1, 1, true);
+                ep.recv_inputs.clear();
+                ep.recv_inputs.insert(4, InputBytes { frame: 4, bytes: vec![0, 0] });
+                ep.recv_inputs.insert(5, InputBytes { frame: 5, bytes: vec![0, 0] });
+                let vals: [u8; 3] = kani::any();
+                ACKS.store(0, Ordering::Relaxed);
+                DEC_N.store(k, Ordering::Relaxed);
+                BAD_AT.store(bad, Ordering::Relaxed);
+                DEC_V[0].store(vals[0], Ordering::Relaxed);
+                DEC_V[1].store(vals[1], Ordering::Relaxed);
+                DEC_V[2].store(vals[2], Ordering::Relaxed);
+                let mut m = input_msg(l + 1, NULL_FRAME);
+                if let MessageBody::Input(b) = &mut m.body {
+                    core::mem::forget(core::mem::replace(&mut b.peer_connect_status, vec![ConnectionStatus::default(); 3]));
+                }
+                ep.handle_message(&m);
+                assert!(ep.last_recv_frame() == l + bad as Frame, "C08: the stream stops right before the malformed frame");
+                assert!(ep.event_queue.len() == 2 * bad, "only the well-formed frames before it are delivered (two players each)");
+                let mut i = 0;
+                while i < bad {
+                    let f = l + 1 + i as Frame;
+                    match (&ep.event_queue[2 * i], &ep.event_queue[2 * i + 1]) {
+                        (Event::Input { input: a, player: pa }, Event::Input { input: b, player: pb }) => {
+                            assert!(*pa == 1 && *pb == 2 && a.frame == f && b.frame == f);
+                            assert!(a.input == vals[i] && b.input == vals[i] ^ 0x55);
+                        }
+                        _ => assert!(false, "only input events"),
+                    }
+                    i += 1;
+                }
+                let mut f = l + bad as Frame + 1;
+                while f <= l + k as Frame {
+                    assert!(!ep.recv_inputs.contains_key(&f), "C08: nothing at or after the malformed frame is remembered (no gap)");
+                    f += 1;
+                }
+                assert!(ACKS.load(Ordering::Relaxed) == 0, "the truncated packet is not acknowledged");
+                kani::cover!(true, "verdict reached");
+                core::mem::forget(m);
+                core::mem::forget(ep);
+            }
+        };
+    }
+    wrong_size_frame!(u_on_input_wrong_size_first_of_two, 2, 0);
+    wrong_size_frame!(u_on_input_wrong_size_second_of_two, 2, 1);
+
     macro_rules! on_input_stream {
         ($name:ident, $l:expr, $s:expr, $k:expr) => {
             /// A packet of k inputs starting at any frame s arrives at a receiver that already has
